@@ -36,3 +36,5 @@ for f,ls in gaps.items():
     rs.append((a,b))
     print(f.replace('/repo/',''), ' '.join(f"{a}-{b}" if a!=b else str(a) for a,b in rs))
 PY
+# instrumented children started with another working directory leave default_*.profraw files behind
+find /repo /verif/harness -maxdepth 2 -name 'default_*.profraw' -delete
